@@ -484,7 +484,11 @@ struct World
   void op_cvt(sim::Op const &op)
   {
     sim::Rng r(op.getu("vs"));
-    std::size_t const len = op.getu("n") % 41;
+    // up to 40 characters as the property's quantifier says, and now and then far beyond (an
+    // implementation that converts in fixed-size pieces has boundaries only long strings reach)
+    std::size_t const len = op.getu("n") % 2049;
+    if (len > 40)
+      ctx.probe("cvt_long_string");
     std::wstring w;
     for (std::size_t k = 0; k < len; ++k)
     {
@@ -887,7 +891,7 @@ void generate(sim::Rng &rng, sim::Plan &p, bool)
     else if (kind < 9)
     {
       // short strings are over-represented: the initial buffer is then smaller than one character
-      long const n = rng.chance(1, 2) ? static_cast<long>(rng.range(0, 3)) : static_cast<long>(rng.below(41));
+      long const n = rng.chance(1, 2) ? static_cast<long>(rng.range(0, 3)) : rng.chance(1, 8) ? static_cast<long>(rng.range(41, 2048)) : static_cast<long>(rng.below(41));
       op = sim::Op("cvt").set("vs", vs).set("n", n);
       if (!faulty && rng.chance(1, 2))
         op.set("real", 1);
@@ -897,13 +901,13 @@ void generate(sim::Rng &rng, sim::Plan &p, bool)
         if (f == 0)
           op.set("window", static_cast<long>(rng.range(1, 12)));
         else if (f == 5)
-          op.set("stall", static_cast<long>(rng.below(45)));
+          op.set("stall", static_cast<long>(rng.below(n > 40 ? 2 * n : 45)));
         else if (f == 1)
-          op.set("ferr", static_cast<long>(rng.below(45)));
+          op.set("ferr", static_cast<long>(rng.below(n > 40 ? 2 * n : 45)));
         else if (f == 2)
-          op.set("ferr2", static_cast<long>(rng.below(120)));
+          op.set("ferr2", static_cast<long>(rng.below(n > 40 ? 4 * n : 120)));
         else if (f == 3)
-          op.set("tear", static_cast<long>(rng.below(200)));
+          op.set("tear", static_cast<long>(rng.below(n > 40 ? 4 * n : 200)));
       }
     }
     else
